@@ -88,7 +88,15 @@ P = {
          "Not decided: that each reader computes the same result as alone (beyond purity); races inside user callbacks.",
          TRUST + "Reflect sink cut: objects stored into the caller's unpack target are not tracked through it. valueCache is modelled as per-call.",
          "§3 C11, §2 E1"),
- "C12": (False, "", "", "", "§3 C12"),
+ "C12": (True,
+         "sibling/def-use agreement of the address function + who-may-write rule for node storage + E1 live-view query (custom analyzer)",
+         "Decides two structural necessary conditions of 'behaves like a tree': all fourteen (name, idx) entry points address their setting through "
+         "one function, parsePathIdx(own name, own idx, options from own arguments), and access their own receiver through the resulting path — so a "
+         "getter reads back what a setter wrote at the same address; node storage is written only by the fields methods, on freshly constructed nodes, "
+         "or by the merge functions (closed set of writers, each paired under C15). Also: Remove walks with environments cleared; a child handle is "
+         "the stored config itself. The equivalence with a plain tree over all operation histories is value-level and not decided.",
+         TRUST,
+         "§3 C12"),
  "C13": (False, "", "", "", "§3 C13"),
  "C14": (True,
          "interprocedural error-provenance (value-flow) analysis on SSA (E9, custom) + non-nil and pairing rules at constructor sites",
